@@ -438,7 +438,13 @@ func (p *Packer) Unpack(r io.Reader, dst string) error {
 
 		// Handle symlinks, directories, non-regular files
 		if info.IsSymlink() {
-			if ok, err := p.validSymlink(dst, header.Name, header.Linkname); ok {
+			// Validate the link at the location where it will really be
+			// created, which is not header.Name when that has leading slashes.
+			linkPath, err := filepath.Rel(dst, info.Path)
+			if err != nil {
+				return fmt.Errorf("failed to evaluate path %q: %w", header.Name, err)
+			}
+			if ok, err := p.validSymlink(dst, linkPath, header.Linkname); ok {
 				// Create the symlink.
 				if err = os.Symlink(header.Linkname, info.Path); err != nil {
 					return fmt.Errorf("failed creating symlink (%q -> %q): %w",
